@@ -205,6 +205,81 @@ def cron_contract(reg: Registry):
     return [sat]
 
 
+def cron_poll_contract(reg: Registry):
+    """BaseTrigger._should_trigger_cron_condition over an abstract store of last executions: one poll yields an occurrence exactly when the
+    condition is satisfied for (now, the STORED last execution) - never because a record is missing, never on the strength of a stale local
+    cache - and then moves the stored value to now; otherwise the store is untouched.  The decision function is the abstract `sat`, whose one
+    needed property (a later last execution never makes a poll fire that an earlier one did not) is a lemma over the cron spec below."""
+    CTX = reg.records[f"{CR}:CronContext"]
+    COND = Atom("CronConditionId")
+    sat = z3.Function("cron_condition_satisfied", COND.sort(), z3.RealSort(), ODT.sort(), z3.BoolSort())
+    STORE = MapT(COND, DATETIME)
+    reg.add_shape(Shape("PollCondition", fields={"condition_id": COND}, abstract_methods={"is_satisfied_by": "PollCondition.is_satisfied_by"}))
+    reg.add(Contract(key="PollCondition.is_satisfied_by", shape="PollCondition", params={"context": CTX}, result=BOOL, frame=[], assumed=True,
+                     check_invariants=False, effect_events=False,
+                     cases=[Case("decision", ensures=[("the-decision-function", lambda c: c.result == sat(c.f("condition_id"), CTX.get(c.arg("context"), "timestamp"),
+                                                                                                     CTX.get(c.arg("context"), "last_execution")))])],
+                     note="CronCondition.is_satisfied_by -> _is_satisfied_by (verified above against the cron spec)"))
+    reg.add_shape(Shape("PollApp", fields={}))
+    reg.add_shape(Shape("CronPoller", fields={"_last_cron_execution_cache": STORE, "stored": STORE, "app": ObjT("PollApp")},
+                        cls=(BT, "BaseTrigger"), abstract_methods={"get_last_cron_execution": "CronPoller.get", "store_last_cron_execution": "CronPoller.cas"}))
+    cell = lambda c, f="stored": z3.Select(c.old(f), c.arg("condition_id"))
+    reg.add(Contract(key="CronPoller.get", shape="CronPoller", params={"condition_id": COND}, result=ODT, frame=[], assumed=True, check_invariants=False,
+                     effect_events=False, cases=[Case("stored", ensures=[("what-the-store-holds", lambda c: c.result == z3.If(
+                         STORE.opt.is_some(cell(c)), ODT.some(STORE.opt.val(cell(c))), ODT.none()))])],
+                     note="get_last_cron_execution of both stores"))
+    exp_matches = lambda c: z3.If(ODT.is_none(c.arg("expected_last_execution")), STORE.opt.is_none(cell(c)),
+                                  cell(c) == STORE.opt.some(ODT.val(c.arg("expected_last_execution"))))
+    reg.add(Contract(key="CronPoller.cas", shape="CronPoller", params={"condition_id": COND, "execution_time": DATETIME, "expected_last_execution": ODT},
+                     result=BOOL, frame=["stored"], assumed=True, check_invariants=False,
+                     cases=[Case("swapped", when=exp_matches, ensures=[("true", lambda c: c.result), ("stored-now", lambda c: c.f("stored") == z3.Store(
+                         c.old("stored"), c.arg("condition_id"), STORE.opt.some(c.arg("execution_time"))))]),
+                            Case("refused", when=lambda c: z3.Not(exp_matches(c)), ensures=[("false", lambda c: z3.Not(c.result)), ("untouched", lambda c: c.f("stored") == c.old("stored"))])],
+                     note="store_last_cron_execution with an explicit expectation: the compare-and-swap proved for MemTrigger and as SQL glue for SQLiteTrigger above"))
+    cid = lambda c: c.eng.heap_read(c.st, c.argv("condition"), "condition_id").term
+    st0 = lambda c: z3.Select(c.old("stored"), cid(c))
+    st0_opt = lambda c: z3.If(STORE.opt.is_some(st0(c)), ODT.some(STORE.opt.val(st0(c))), ODT.none())
+    cache0 = lambda c: z3.Select(c.old("_last_cron_execution_cache"), cid(c))
+    now = lambda c: c.arg("current_time")
+    fires = lambda c: sat(cid(c), now(c), st0_opt(c))
+    k, t1, l1, l2 = z3.Const("mk", COND.sort()), z3.Real("mt"), z3.Real("ml1"), z3.Real("ml2")
+    reg.axioms = list(getattr(reg, "axioms", [])) + [
+        # monotone in the last execution (lemma `cron-decision-is-monotone-in-the-last-execution` proves it for the cron spec)
+        z3.ForAll([k, t1, l1, l2], z3.Implies(z3.And(l1 <= l2, sat(k, t1, ODT.some(l2))), sat(k, t1, ODT.some(l1)))),
+    ]
+    OCTX = Opt(CTX)
+    poll = Contract(
+        key=f"{BT}:BaseTrigger._should_trigger_cron_condition", shape="CronPoller", params={"condition": ObjT("PollCondition"), "current_time": DATETIME}, result=OCTX,
+        frame=["stored", "_last_cron_execution_cache"],
+        requires=[("the-local-cache-holds-an-earlier-stored-value(the store only moves forward)", lambda c: z3.Implies(
+            STORE.opt.is_some(cache0(c)), z3.And(STORE.opt.is_some(st0(c)), STORE.opt.val(cache0(c)) <= STORE.opt.val(st0(c)))))],
+        cases=[
+            Case("occurrence", when=fires, ensures=[
+                ("C13:a-poll-that-satisfies-the-condition-for-the-STORED-last-execution-yields-the-occurrence", lambda c: OCTX.is_some(c.result)),
+                ("the-occurrence-carries-this-poll's-time-and-the-stored-last-execution", lambda c: z3.And(
+                    CTX.get(OCTX.val(c.result), "timestamp") == now(c), CTX.get(OCTX.val(c.result), "last_execution") == st0_opt(c))),
+                ("C13:the-stored-last-execution-moves-to-this-poll(so that no later poll of this tick fires again)", lambda c: c.f("stored") == z3.Store(
+                    c.old("stored"), cid(c), STORE.opt.some(now(c)))),
+                ("cache-follows", lambda c: z3.Select(c.f("_last_cron_execution_cache"), cid(c)) == STORE.opt.some(now(c)))]),
+            Case("no-occurrence", when=lambda c: z3.Not(fires(c)), ensures=[
+                ("C13:a-poll-outside-the-condition-yields-nothing(also when nothing was ever recorded)", lambda c: OCTX.is_none(c.result)),
+                ("store-untouched", lambda c: c.f("stored") == c.old("stored"))]),
+        ], properties=[PID],
+        note="sequential contract of one poll; two pollers racing between the read and the swap are decided by the compare-and-swap contracts (one wins)")
+    reg.add(poll)
+    return [poll]
+
+
+def cron_monotone_lemma(ctx: RunCtx):
+    """the part of the cron spec that depends on the last execution, `last < m and t - last >= min_interval`, is monotone: an earlier last execution
+    satisfies it whenever a later one does (justifies the axiom on the abstract decision function used by the poll contract)"""
+    t, m, l1, l2, mi = z3.Reals("lt lm ll1 ll2 lmin")
+    after = lambda l: z3.And(t - l >= mi, l < m)
+    o = Obligation(name=f"{PID}/lemma/cron-decision-is-monotone-in-the-last-execution", kind="lemma", pc=[l1 <= l2, after(l2)], goal=after(l1),
+                   function="cron spec (after_last)")
+    return [o]
+
+
 # --------------------------------------------------------------------------- conformance of the croniter axioms + bounded loop scenarios
 def croniter_conformance(ctx: RunCtx):
     """The proof of the cron decision assumes `croniter.match(expr, t)` <=> t is a scheduled instant.  The real croniter matches with minute
@@ -370,6 +445,51 @@ def loop_scenarios(ctx: RunCtx) -> BoundedResult:
             b = app.trigger.store_last_cron_execution(cond.condition_id, t2, expected_last_execution=None)
             if not (a and not b):
                 res.failures.append({"what": f"{backend}: two compare-and-swaps that both expect 'never executed' returned {a}, {b}", "finding_key": f"{backend}:cas-never"})
+        # two tasks depend on the same condition; one of them registers its triggers again (a second runner start in the process): the other
+        # task's trigger must still be reachable from the shared condition
+        n += 1
+        with real_app(backend) as app:
+            try:
+                from pynenc.trigger.trigger_builder import TriggerBuilder
+                t_a, t_b = app.task(verif_tasks.add), app.task(verif_tasks.key_task)
+                mk = lambda: TriggerBuilder().on_event("shared_evt").with_logic("or")
+                app.trigger.register_task_triggers(t_a, mk().with_args_static({"x": 1}))
+                app.trigger.register_task_triggers(t_b, mk().with_args_static({"key": "k"}))
+                app.trigger.register_task_triggers(t_a, mk().with_args_static({"x": 1}))        # registered again
+                app.trigger.emit_event("shared_evt", {})
+                app.trigger.trigger_loop_iteration()
+                la, lb = (len(list(app.orchestrator.get_task_invocation_ids(t.task_id))) for t in (t_a, t_b))
+                if (la, lb) != (1, 1):
+                    res.failures.append({"what": f"{backend}: two tasks on one event condition, the first registered again, one occurrence: launches (re-registered task, other task) = "
+                                                 f"({la}, {lb}), expected (1, 1)", "input": {"scenario": "shared condition, re-registration"}, "finding_key": f"{backend}:shared-condition"})
+            except Exception as e:
+                res.failures.append({"what": f"{backend}: scenario could not run: {type(e).__name__}: {str(e)[:150]}", "finding_key": f"{backend}:scenario-error"})
+        # polls outside any window yield nothing - also the very first poll of a condition; two pollers with separate caches on one store
+        # alternate minute by minute: every scheduled minute yields exactly one occurrence
+        n += 1
+        with real_app(backend) as app:
+            try:
+                from pynenc.trigger.conditions.cron import CronCondition
+                far = CronCondition("0 0 1 1 *")
+                first = app.trigger._should_trigger_cron_condition(far, datetime(2026, 6, 15, 12, 30, 20, tzinfo=UTC))
+                if first is not None:
+                    res.failures.append({"what": f"{backend}: the first poll ever of cron '0 0 1 1 *' at 2026-06-15 12:30:20 (no scheduled minute within months) yields an occurrence",
+                                         "input": {"cron": "0 0 1 1 *", "poll": "2026-06-15T12:30:20Z"}, "finding_key": f"{backend}:first-poll-outside-any-window"})
+                every = CronCondition("* * * * *")
+                import copy
+                other = copy.copy(app.trigger)                       # a second trigger component on the same store with a cache of its own
+                other._last_cron_execution_cache = {}
+                pollers, fired = [app.trigger, other], []
+                for minute in range(6):
+                    p = pollers[minute % 2]
+                    r = p._should_trigger_cron_condition(every, datetime(2026, 1, 1, 12, minute, 5, tzinfo=UTC))
+                    r2 = p._should_trigger_cron_condition(every, datetime(2026, 1, 1, 12, minute, 20, tzinfo=UTC))
+                    fired.append((r is not None) + (r2 is not None))
+                if fired != [1] * 6:
+                    res.failures.append({"what": f"{backend}: two pollers with separate caches alternating on one store, cron '* * * * *', two polls in each of 6 minutes: occurrences per "
+                                                 f"minute {fired}, expected one each", "input": {"scenario": "alternating pollers"}, "finding_key": f"{backend}:alternating-pollers"})
+            except Exception as e:
+                res.failures.append({"what": f"{backend}: scenario could not run: {type(e).__name__}: {str(e)[:150]}", "finding_key": f"{backend}:scenario-error"})
     res.failures = res.failures[:10]
     res.cases = n
     res.distinct = n
@@ -380,12 +500,12 @@ def loop_scenarios(ctx: RunCtx) -> BoundedResult:
 def build(ctx: RunCtx) -> Prop:
     T = Types(ctx.src)
     reg = base_registry(ctx.src, T)
-    verify = mem_contracts(reg) + sqlite_contracts(reg) + cron_contract(reg)
+    verify = mem_contracts(reg) + sqlite_contracts(reg) + cron_contract(reg) + cron_poll_contract(reg)
     return Prop(
         pid=PID, title="cron decision = spec under the croniter schedule axioms; compare-and-swap on the last cron execution and trigger-run claims "
                        "(Mem proved incl. lock ownership, SQLite glue incl. BEGIN IMMEDIATE); loop scenarios bounded",
         level="other", technique="contract-based deductive verification (AST->z3 VCs, assumed croniter schedule contract with conformance test, lock/transaction ownership) + bounded loop scenarios",
-        registry=reg, verify=verify, lemmas=[launch_loop_shape, croniter_conformance], bounded=[loop_scenarios],
+        registry=reg, verify=verify, lemmas=[launch_loop_shape, croniter_conformance, cron_monotone_lemma], bounded=[loop_scenarios],
         replayers={"*croniter.match-is-exact*": lambda ctx, ob: ob.get("extra", {}).get("replay", {"confirmed": False})},
         assumptions=["croniter(expr, base).get_next/get_prev return the least / greatest scheduled instant after / before base; the schedule recurs for ever",
                      "croniter.match(expr, t) <=> t is a scheduled instant (ASSUMED by the proof; the conformance test shows the real library has minute precision: finding F-C13-4)",
